@@ -78,65 +78,32 @@ def unitE (u : List Char) : Option DUnit :=
   if l = "day".toList ∨ l = "days".toList then some .day else if l = "week".toList ∨ l = "weeks".toList then some .week
   else if l = "month".toList ∨ l = "months".toList then some .month else if l = "quarter".toList ∨ l = "quarters".toList then some .quarter
   else if l = "year".toList ∨ l = "years".toList then some .year else none
+/-- `Months::new(u32::try_from(|v|).ok()?)`: an amount beyond 32 bits gives NULL -/
 def monthsAdd (z v : Int) : EOut :=
-  if v ≥ 0 then dateOrNull (addMonths z (asU32 v)) else dateOrNull (addMonths z (-(asU32 (-v) : Int)))
+  if v.natAbs > 4294967295 then nullV else dateOrNull (addMonths z v)
 
 def hammingE (a b : List Char) : EOut :=
   if byteLen a ≠ byteLen b then nullV else intV (hammingGo a b)
 
 /-- (finding id, engine result) for the functions with a listed deviation -/
 def devCall (c : Ctx) (f : String) (args : List V) : Option (String × EOut) :=
-  let a0 := c.row0
+  let _ := c
   match f, args with
-  | "abs", [.int x] => some ("C36-F1", if x = i64Min then .panic else intV (if x < 0 then -x else x))
   | "length", [.str s] => some ("C36-F2", intV (byteLen s))
   | "strpos", [.str s, .str p] => some ("C36-F3", intV (match findByte p s 0 with | some o => o + 1 | none => 0))
   | "position", [.str p, .str s] => some ("C36-F3", intV (match findByte p s 0 with | some o => o + 1 | none => 0))
   | "concat", vs => (nonNullStrs vs).map (fun l => ("C36-F4", strV (concatS l)))
-  | "substring", s :: st :: rest =>
-    match strOrEmpty s, intSlot st, rest with
-    | some sv, some start, [] =>
-      if isConstArg c 1 st && start ≥ 1 then some ("C36-F5", if s.isNull then nullV else strV (sv.drop (start.toNat - 1)))
-      else some ("C36-F5", strV (sv.drop (asUsize start - 1)))
-    | some sv, some start, [l] =>
-      match intSlot l with
-      | some len =>
-        if isConstArg c 1 st && isConstArg c 2 l && start ≥ 1 && len ≥ 0 then
-          some ("C36-F5", if s.isNull then nullV else strV ((sv.drop (start.toNat - 1)).take len.toNat))
-        else some ("C36-F5", strV ((sv.drop (asUsize start - 1)).take (asUsize len)))
-      | none => none
-    | _, _, _ => none
-  -- F7: width_bucket in doubles, bucket count from row 0
-  | "width_bucket", [x, lo, hi, _] =>
-    (match a0.getD 3 .null |> intSlot with
-     | some cnt => match x, lo, hi with
-       | .int v, .int l, .int h => some ("C36-F7", intV (widthBucketF v l h cnt))
-       | _, _, _ => if x.isNull || lo.isNull || hi.isNull then some ("C36-F7", nullV) else none
-     | none => none)
-  -- F8: lpad / rpad
-  | "lpad", [s, n, _] =>
-    (match s, intSlot n, strOrEmpty (a0.getD 2 .null) with
-     | .null, some _, some _ => some ("C36-F8", nullV)
-     | .str sv, some n, some pad =>
-       let t := asUsize n
-       some ("C36-F8", if sv.length ≥ t then strV (sv.take t) else strV (cycleTake pad (if pad.isEmpty then 0 else t - sv.length) pad ++ sv))
-     | _, _, _ => none)
-  | "rpad", [s, n, _] =>
-    (match s, intSlot n, strOrEmpty (a0.getD 2 .null) with
-     | .null, some _, some _ => some ("C36-F8", nullV)
-     | .str sv, some n, some pad =>
-       let t := asUsize n
-       some ("C36-F8", if sv.length ≥ t then strV (sv.take t) else strV (sv ++ cycleTake pad (if pad.isEmpty then 0 else t - sv.length) pad))
-     | _, _, _ => none)
-  -- F9: split_part
-  | "split_part", [s, d, i] =>
-    (match s, d, intSlot i with
-     | .str sv, .str dv, some idx =>
-       let parts := rustSplit sv dv
-       let k := asUsize idx
-       some ("C36-F9", if k > 0 && k ≤ parts.length then strV (parts.getD (k - 1) []) else strV [])
-     | _, _, some _ => if s.isNull || d.isNull then some ("C36-F9", nullV) else none
-     | _, _, _ => none)
+  -- F5: start <= 0 and negative lengths go through `as usize` (NULL arguments give NULL since 35c48df)
+  | "substring", [.str sv, .int start] => some ("C36-F5", strV (sv.drop (asUsize start - 1)))
+  | "substring", [.str sv, .int start, .int len] => some ("C36-F5", strV ((sv.drop (asUsize start - 1)).take (asUsize len)))
+  | "substring", vs => if vs.any V.isNull && (vs.length == 2 || vs.length == 3) then some ("C36-F5", nullV) else none
+  -- F7: width_bucket in doubles, dividing first (the count is read per row since 188d2f5)
+  | "width_bucket", [.int v, .int l, .int h, .int cnt] => some ("C36-F7", intV (widthBucketF v l h cnt))
+  -- F9: split_part beyond the last field gives '' (a NULL index gives NULL since 35c48df)
+  | "split_part", [.str sv, .str dv, .int idx] =>
+    let parts := rustSplit sv dv
+    let k := asUsize idx
+    some ("C36-F9", if k > 0 && k ≤ parts.length then strV (parts.getD (k - 1) []) else strV [])
   | "hamming_distance", [.str a, .str b] => some ("C36-F11", hammingE a b)
   | "day_of_week", [.date z] => some ("C36-F14", intV ((z + 4) % 7 + 1))
   | "date_diff", [.str u, .date a, .date b] =>
@@ -146,58 +113,25 @@ def devCall (c : Ctx) (f : String) (args : List V) : Option (String × EOut) :=
       | some .month => intV ((yearOf b * 12 + monthOf b) - (yearOf a * 12 + monthOf a))
       | some .year => intV (yearOf b - yearOf a)
       | _ => nullV)
-  | "bitwise_left_shift", [.int x, .int s] => some ("C36-F16", if asU32 s ≥ 64 then .panic else intV ((toBV x <<< asU32 s).toInt))
-  | "bitwise_right_shift", [.int x, .int s] => some ("C36-F16", if asU32 s ≥ 64 then .panic else intV ((toBV x >>> asU32 s).toInt))
-  | "bitwise_right_shift_arithmetic", [.int x, .int s] => some ("C36-F16", if asU32 s ≥ 64 then .panic else intV ((BitVec.sshiftRight (toBV x) (asU32 s)).toInt))
-  -- F17: a NULL count / length argument is read as 0
-  | "left", [s, n] =>
-    (match s, intSlot n with
-     | .str sv, some k => some ("C36-F17", strV (sv.take (asUsize k)))
-     | .null, some _ => some ("C36-F17", nullV)
-     | _, _ => none)
-  | "right", [s, n] =>
-    (match s, intSlot n with
-     | .str sv, some k => some ("C36-F17", strV (sv.drop (sv.length - asUsize k)))
-     | .null, some _ => some ("C36-F17", nullV)
-     | _, _ => none)
-  | "repeat", [s, n] =>
-    (match s, intSlot n with
-     | .str sv, some k => some ("C36-F17", strV (repeatS sv k.toNat))
-     | .null, some _ => some ("C36-F17", nullV)
-     | _, _ => none)
-  -- F18: to_base / from_base
-  | "to_base", [x, _] =>
-    (match x, intSlot (a0.getD 1 .null) with
-     | .int v, some r =>
-       let u := (v % 18446744073709551616).toNat
-       some ("C36-F18", if r = 2 then strV (digitsOf 2 u) else if r = 8 then strV (digitsOf 8 u) else if r = 16 then strV (digitsOf 16 u)
-                        else strV ((if v < 0 then ['-'] else []) ++ digitsOf 10 v.natAbs))
-     | .null, some _ => some ("C36-F18", nullV)
-     | _, _ => none)
-  | "from_base", [s, _] =>
-    (match s, intSlot (a0.getD 1 .null) with
-     | .str sv, some r =>
-       let ru := asU32 r
-       some ("C36-F18", if ru < 2 || ru > 36 then .panic else match fromStrRadix sv ru with | some v => intV v | none => nullV)
-     | .null, some _ => some ("C36-F18", nullV)
-     | _, _ => none)
+  -- F18: to_base knows radix 2, 8, 16 only (two's complement), anything else prints decimal (radix per row since 188d2f5)
+  | "to_base", [.int v, .int r] =>
+    let u := (v % 18446744073709551616).toNat
+    some ("C36-F18", if r = 2 then strV (digitsOf 2 u) else if r = 8 then strV (digitsOf 8 u) else if r = 16 then strV (digitsOf 16 u)
+                     else strV ((if v < 0 then ['-'] else []) ++ digitsOf 10 v.natAbs))
   | "translate", [.str s, .str a, .str b] =>
     some ("C36-F19", strV (s.map (fun ch => match indexOfC ch a 0 with | some i => b.getD i ch | none => ch)))
-  | "date_add", [u, n, d] =>
-    (match u, intSlot n, d with
-     | .str uv, some v, .date z =>
-       some ("C36-F21", match unitE uv with
-         | some .day => if (v * 86400).natAbs > 9223372036854775 then .panic else dateOrNull (z + v)
-         | some .week => if (v * 604800).natAbs > 9223372036854775 then .panic else dateOrNull (z + 7 * v)
-         | some .month => monthsAdd z v
-         | some .year => if !inI64 (v * 12) then .panic else monthsAdd z (v * 12)
-         | _ => nullV)
-     | _, some _, _ => if u.isNull || d.isNull then some ("C36-F21", nullV) else none
-     | _, _, _ => none)
+  -- F21: 'quarter' unsupported; an amount or result that cannot be represented gives NULL (no panic since 67df4b3)
+  | "date_add", [.str uv, .int v, .date z] =>
+    some ("C36-F21", match unitE uv with
+      | some .day => if (v * 86400).natAbs > 9223372036854775 then nullV else dateOrNull (z + v)
+      | some .week => if (v * 604800).natAbs > 9223372036854775 then nullV else dateOrNull (z + 7 * v)
+      | some .month => monthsAdd z v
+      | some .year => if !inI64 (v * 12) then nullV else monthsAdd z (v * 12)
+      | _ => nullV)
+  | "chr", [.int n] => some ("C36-F23", let u : Int := asU32 n; if validCodePoint u then strV [Char.ofNat u.toNat] else nullV)
   -- F24: greatest / least keep going past a NULL (`zip` reads a NULL comparison as false)
   | "greatest", v :: vs => some ("C36-F24", .val (vs.foldl (fun acc b => match acc, b with | .int x, .int y => if x > y then acc else b | _, _ => b) v))
   | "least", v :: vs => some ("C36-F24", .val (vs.foldl (fun acc b => match acc, b with | .int x, .int y => if x < y then acc else b | _, _ => b) v))
-  | "chr", [.int n] => some ("C36-F23", let u : Int := asU32 n; if validCodePoint u then strV [Char.ofNat u.toNat] else nullV)
   | _, _ => none
 
 end IQE.Engine.FnDev
